@@ -7,12 +7,15 @@
 (* "b" with arbitrary non-empty strings.                                                              *)
 EXTENDS Naturals, Sequences, FiniteSets, TLC, Json
 
-CONSTANT StrVals      \* the abstract string arguments, e.g. {"", "a"} or {"", "a", "b"}
+CONSTANT StrVals,     \* the abstract string arguments, e.g. {"", "a"} or {"", "a", "b"}
+         OtherComps   \* compression names beyond the library's constants: primitive.Compression is a string type, the
+                      \* protocol documents spell the algorithms in lower case ("lz4", "snappy"), and a setter stores
+                      \* whatever it is given
 
 Absent == "absent"
 StringKeys == {"CLIENT_ID", "APPLICATION_NAME", "APPLICATION_VERSION", "DRIVER_NAME", "DRIVER_VERSION"}
 Keys == StringKeys \cup {"CQL_VERSION", "COMPRESSION", "THROW_ON_OVERLOAD"}
-Compressions == {"NONE", "LZ4", "SNAPPY"}
+Compressions == {"NONE", "LZ4", "SNAPPY"} \cup OtherComps
 
 VARIABLE opts
 vars == <<opts>>
